@@ -1,6 +1,5 @@
 SPECIFICATION Spec
 CHECK_DEADLOCK FALSE
 INVARIANT OffsetsIncrease
-INVARIANT LinesChange
 INVARIANT LinesPositive
 CONSTRAINT Export
